@@ -101,6 +101,10 @@ impl PayloadWriter {
             // of the last metric, since the previous parts of the buffer are still valid and could be flushed.
             self.buf.truncate(self.last_offset());
 
+            // Truncating also removed the length prefix placeholder of the rejected payload, so initialize the buffer
+            // for the next payload again.
+            self.prepare_for_write();
+
             return false;
         }
 
